@@ -329,7 +329,7 @@ func genScenario(src *tape.Source) *scenario {
 			if sc.Files[i].Kind == "missing" {
 				continue
 			}
-			sc.Files[i].Name = []string{"d/", "d/sub/", "d/sub/deeper/"}[src.Intn(3, "c19.depth")] + sc.Files[i].Name
+			sc.Files[i].Name = []string{"d/", "d/sub/", "d/sub/deeper/", "d/[old]/", "d/v1?/"}[src.Intn(5, "c19.depth")] + sc.Files[i].Name
 		}
 	}
 	if input < 6 && !sc.DirMode && src.Intn(8, "c19.symlink") == 7 {
@@ -944,6 +944,11 @@ func (p *P) formatConsistency(r *core.Result, sc *scenario, base *outcome) {
 // statuses, format prints the concatenation of what it prints for each file,
 // and format -i / lint --auto-fix leave each file as a single-file run would.
 func (p *P) independence(r *core.Result, sc *scenario, base *outcome) {
+	for _, f := range sc.Files {
+		if strings.ContainsAny(f.Name, "[?*") {
+			return // given explicitly such a path is a glob pattern, not a file name
+		}
+	}
 	var sumOut strings.Builder
 	anyFail := false
 	for _, f := range sc.Files {
